@@ -2482,3 +2482,6 @@ Proof.
   apply (prun_ok succ_w subject_w manifest_w succ_w_lt subj_w_succ true).
   repeat constructor; discriminate.
 Qed.
+
+Lemma lock_discipline_final : lock_discipline = true.
+Proof. vm_compute. reflexivity. Qed.
